@@ -207,4 +207,29 @@ def aliasArgv (args : List Str) : List Str := resolveArgsList (args.map .s)
 /-- what `Popen` is given for a real process -/
 def popenArgv (args : List Str) : List Str := (resolveArgsList (args.map .s)).map fixNull
 
+/-! ### `@$(cmd)`: the captured output is re-split line by line (`subproc_captured_inject`)
+
+`o.splitlines()`, then `Lexer.split(line)` for every line, the results concatenated.  The lexer is not modelled:
+`split` is an abstract per-line splitter (the harness supplies what the session's own `Lexer.split` answers for
+each line); what IS modelled is the contract that the lexer only ever sees ONE line at a time, so nothing can
+reach across a line end (a trailing backslash cannot continue a line, indentation of one line cannot
+influence the next). -/
+
+/-- the characters at which `str.splitlines` ends a line -/
+def isLineEnd (c : Nat) : Bool := c == 10 || c == 13 || lbChars.contains c
+
+/-- Python `str.splitlines()`; `cur` = the current line reversed, `prevCR` = the previous character was `\r` -/
+def splitlinesGo : Str → Str → Bool → List Str
+  | [], cur, _ => if cur = [] then [] else [cur.reverse]
+  | c :: cs, cur, prevCR =>
+    if c = 10 ∧ prevCR = true then splitlinesGo cs cur false          -- the `\n` of a `\r\n`
+    else if isLineEnd c = true then cur.reverse :: splitlinesGo cs [] (c == 13)
+    else splitlinesGo cs (c :: cur) false
+
+def pySplitlines (s : Str) : List Str := splitlinesGo s [] false
+
+/-- `subproc_captured_inject` on the captured text `out` -/
+def capturedInject (split : Str → List Str) (out : Str) : List Str :=
+  (pySplitlines out).flatMap split
+
 end Args
